@@ -261,8 +261,18 @@ def r06_6(ctx):
                 for t in (n.targets if isinstance(n, ast.Assign) else [n.target]):
                     if isinstance(t, ast.Attribute) and t.attr == "hybrid_op_count":
                         writers.append((fi.qual, U(n)))
-    exp = [("ILOpsHolder.__init__", "self.hybrid_op_count = 0"), ("RZILTransformer.resolve_hybrid", "self.il_ops_holder.hybrid_op_count += 1")]
-    ctx.check("writers of hybrid_op_count", sorted(writers) == sorted(exp), str(exp), str(sorted(writers)), "rzilcompiler/Transformer/ILOpsHolder.py")
+    # while a behaviour is being transformed (anything a grammar callback can reach) the only write is the increment in
+    # resolve_hybrid; writes from outside (constructor, a compiler method preparing a fresh transformer) cannot fall between
+    # two operations of one behaviour
+    gm = get_grammar(ctx.env)
+    cb_names = transformer_callbacks(idx) & ({a.callback for alts in gm.rules.values() for a in alts} | set(gm.rules))
+    roots = [idx.func(f"RZILTransformer.{c}") for c in sorted(cb_names) if idx.has_func(f"RZILTransformer.{c}")]
+    ctx.need(len(roots) >= 30, f"only {len(roots)} grammar callbacks found")
+    during = set(idx.reachable(roots))
+    inside = sorted(w for w in writers if w[0] in during)
+    exp_inside = [("RZILTransformer.resolve_hybrid", "self.il_ops_holder.hybrid_op_count += 1")]
+    ctx.check("writers of hybrid_op_count while a behaviour is transformed", inside == exp_inside, str(exp_inside), str(inside), "rzilcompiler/Transformer/RZILTransformer.py")
+    ctx.check("the counter starts at a number", ("ILOpsHolder.__init__", "self.hybrid_op_count = 0") in writers, "ILOpsHolder.__init__: self.hybrid_op_count = 0", str(sorted(w for w in writers if w[0] not in during)), "rzilcompiler/Transformer/ILOpsHolder.py", nontrivial=False)
     # the name ends with the counter's value and the counter moves on: two operations of one behaviour never share a temporary
     fi = idx.func("RZILTransformer.resolve_hybrid")
     seen = []
